@@ -322,3 +322,68 @@ error_shape!(c28_error_response_1, 1, false);
 error_shape!(c28_error_response_2, 2, false);
 error_shape!(c28_notice_response_0, 0, true);
 error_shape!(c28_notice_response_2, 2, true);
+
+// ------------------------------------------------------------------ appended encoding
+//
+// `encode(&self, buf)` APPENDS to the caller's buffer: whatever is already in it must stay
+// untouched and the appended bytes alone must be one well-formed frame.
+
+fn encode_after_prefix(m: &BackendMessage, ty: u8) {
+    let prefix: [u8; 3] = kani::any();
+    let mut buf = BytesMut::new();
+    {
+        use bytes::BufMut;
+        buf.put_slice(&prefix);
+    }
+    m.encode(&mut buf);
+    assert!(buf.len() >= 3 + 5, "something was appended");
+    assert!(buf[0] == prefix[0] && buf[1] == prefix[1] && buf[2] == prefix[2], "bytes already in the buffer are untouched");
+    let c = open_frame(&buf[3..], ty);
+    assert!(c.is_some(), "the appended bytes are one frame whose length field counts the bytes after its type byte");
+}
+
+#[kani::proof]
+#[kani::unwind(7)]
+fn c28_append_data_row() {
+    let mut values: Vec<Option<Vec<u8>>> = Vec::with_capacity(2);
+    values.push(cell::<1>());
+    values.push(cell::<{ -1 }>());
+    let m = BackendMessage::DataRow { values };
+    encode_after_prefix(&m, b'D');
+    kani::cover!(true, "reached");
+    std::mem::forget(m);
+}
+
+#[kani::proof]
+#[kani::unwind(7)]
+fn c28_append_row_description() {
+    let mut fields = Vec::with_capacity(1);
+    fields.push(any_field::<1>());
+    let m = BackendMessage::RowDescription { fields };
+    encode_after_prefix(&m, b'T');
+    kani::cover!(true, "reached");
+    std::mem::forget(m);
+}
+
+#[kani::proof]
+#[kani::unwind(7)]
+fn c28_append_command_complete() {
+    let m = BackendMessage::CommandComplete { tag: ascii::<2>(false) };
+    encode_after_prefix(&m, b'C');
+    kani::cover!(true, "reached");
+    std::mem::forget(m);
+}
+
+#[kani::proof]
+#[kani::unwind(7)]
+fn c28_append_ready_and_error() {
+    let m = BackendMessage::ReadyForQuery { status: TransactionStatus::Idle };
+    encode_after_prefix(&m, b'Z');
+    let fields: HashMap<u8, String> = HashMap::new();
+    let e = BackendMessage::ErrorResponse { fields };
+    encode_after_prefix(&e, b'E');
+    let p = BackendMessage::ParameterStatus { name: ascii::<1>(false), value: ascii::<1>(false) };
+    encode_after_prefix(&p, b'S');
+    kani::cover!(true, "reached");
+    std::mem::forget((m, e, p));
+}
